@@ -175,7 +175,20 @@ func (ms *MessageStreamer) Go(ctx context.Context, conn StreamConnection) error 
 				mu.Unlock()
 			}
 			if len(msg.Delay) != 0 {
-				if err := ms.doDelay(ctx, msg.Delay, time.Duration(msg.DelaySeconds*float64(time.Second))); err != nil {
+				delay := time.Duration(msg.DelaySeconds * float64(time.Second))
+				if delay <= 0 {
+					// a zero deadline is a nack: it releases flow control capacity the
+					// same as the explicit nack above. do this before the deliveries
+					// become eligible again, so that the fetch which re-sends them is
+					// what accounts for them again
+					mu.Lock()
+					for _, id := range msg.Delay {
+						delete(pending, id)
+					}
+					tryWake()
+					mu.Unlock()
+				}
+				if err := ms.doDelay(ctx, msg.Delay, delay); err != nil {
 					return err
 				}
 			}
